@@ -21,6 +21,11 @@ CLAIMED = {
          "10 scenes x all layouts with <=2 (thorough <=3) simultaneous deviations from canonical over: data packets per cloud, every byte cut of every record stream, index/ignored packets at every gap, data/index offsets, section order, gaps (every aligned residue in a dedicated stage), omitted default attributes, XML lexical forms; the real raw reader must return exactly the encoded scene.",
          "only layouts libE57Format accepts are generated; scenes are small (<=5 points per cloud)",
          "DESIGN.md §5 C03"),
+ "C04": ("model_checking",
+         "bounded-exhaustive enumeration of metadata programs (presence lattice with deviation bound, full string and float catalogues) on the real writer/reader",
+         "Presence lattice of 34 optional fields within <=2/3 toggles of all-absent and all-present x 5 image kinds x 3 finalize modes; every string of length <=3 over 12 XML-critical characters plus long ones in every string field; every float of the mini-float lattice plus specials in every float field; everything set must read back exactly; xml() equals the transformer output and the bytes stored in the file.",
+         "carriage return excluded from strings; partial limit overrides not judged",
+         "DESIGN.md §5 C04"),
  "C05": ("model_checking",
          "deviation-bounded exhaustive DFS over attribute subsets, state combinations, poses and packetisations of independently encoded files; real simple iterator vs an independent reference view under all 64 option vectors",
          "Every case (3 coordinate kinds x 6 poses x <=2/3 deviations over attribute presence, coordinate type, out-of-set state values at first/middle/last point, packets, cuts, index/ignored packets) is read under all 64 option vectors and compared point by point with a reference function written from the documentation; the failure clause is checked in both directions.",
@@ -31,16 +36,46 @@ CLAIMED = {
          "All 261 120 (length, aligned start residue) pairs, multi-page lengths, every depth-<=3 program over blobs / all image kinds with and without masks / clouds with payload patterns unique per blob, and a menu of crafted descriptors and section-length patches are executed on the real code; payloads compared byte for byte; a crafted descriptor must yield Err or exactly `length` bytes as decoded by the independent page decoder.",
          "blob lengths above 1023 are sampled at page-boundary neighbourhoods and three long sizes only; tampering uses a fixed menu of descriptor lengths",
          "DESIGN.md §5 C06"),
+ "C07": ("model_checking",
+         "exhaustive single-bit (all files/pages/bytes) and two-bit flips through the real reader, bounded-exhaustive read histories on damaged files, measured CRC syndrome table for the 3-bit and burst clauses, cross-build comparison of both CRC backends",
+         "F1: every single-bit flip of every byte of 4 small files against the whole operation list forwards and backwards; F2: all depth-3/4 read histories on files with one damaged page; F3: all 1-bit and 2-bit flips (quick: within 64-bit windows, thorough: all 33.5 M pairs) and a menu of checksum mis-encodings through the real page reader; F4: all triples and all bursts <=32 bits decided on the syndrome table measured with the crate's CRC (affinity verified on every executed pair); F6: identical per-case observations with and without the crc32c feature.",
+         "3-bit/burst clauses rely on CRC affinity verified on executed pairs; burst positions in the CRC's own bit order; known finding: bursts straddling payload end and the big-endian checksum (format property)",
+         "DESIGN.md §5 C07"),
  "C10": ("model_checking",
          "bounded-exhaustive enumeration of prototypes, unstorable values and API call orders on the real writer under catch_unwind, judged by a reference predicate of the documented rules",
          "Every prototype of length <=2 over 25 names x 14 types, every valid base plus <=2 extra records, every single-record mutation of the catalogue prototypes, 9 kinds of unstorable value at every position of a 9-point cloud, and every sequence of <=3/4 API sessions (incl. abandoned writers, double finalize, failing XML transformer) are executed; no call may panic, listed unstorable inputs must be rejected without side effects, and whenever finalize reports success the file must read back exactly.",
          "rejection is demanded only for the classes the statement lists; duplicates and other undocumented shapes are judged by no-panic and read-back only",
          "DESIGN.md §5 C10"),
+ "C11": ("model_checking",
+         "explicit-state BFS over real PagedWriter histories with exact canonical states (verification hooks), invariants on every transition and flush/drop point; exhaustive read-op sequences on every distinct device image",
+         "All histories over a 26-op alphabet (10 write sizes, 12 seek targets incl. refused ones, flush, align, position, size) to depth 5 (thorough 7) with state merging; I1-I5 (page multiple, CRC of every page, payload == reference logical stream, position/size mapping, seek verdicts) after each op and on the image left by flush or drop; then every sequence of depth 3/4 over 16 reader ops on each distinct image.",
+         "logical length capped at 4 pages; independent CRC implementation trusted",
+         "DESIGN.md §5 C11"),
+ "C12": ("model_checking",
+         "full products over widths 0..64 x range shapes x anchors x packet capacities on the real writer (bytes vs independent bit codec) and reader (independently encoded streams cut at every byte); direct drive of the bit buffers for all values of widths <=12",
+         "Writer: every width, 3 range shapes, 4 anchors, hooked capacity 1..16, Integer and ScaledInteger: the record's concatenated stream must equal e57spec's bit codec bit for bit with exactly ceil(N*w/8) bytes; reader: every byte cut (thorough: pairs of cuts) of independently encoded streams; natural-capacity cut for every width; direct drive: every value of every width <=12 at every position, every flush point and every append split.",
+         "values inside the declared range; only same-width streams are driven through the buffers",
+         "DESIGN.md §5 C12"),
  "C13": ("model_checking",
          "full product of 22 attribute types x 18 limit shapes x 4 attributes, each case holding every stored value of the range (or boundaries + mini-float lattice), read by the real simple iterator",
          "For every (type, limits, attribute) the whole stored-value list is read with normalisation on and off: every delivered value must be in [0,1] and not NaN, non-decreasing in the stored value, equal to clamp((v-lo)/(hi-lo)) within 2.4e-7 for the range the statement designates, 0 for degenerate ranges; with normalisation off the stored value as f32.",
          "ambiguous limit shapes accept any of the candidate ranges; non-range limits (NaN, lo>hi) only the invariants",
          "DESIGN.md §5 C13"),
+ "C15": ("fault_enumeration",
+         "exhaustive crash-point enumeration: every prefix of the device write log x every byte cut of the cut write, for every program of a bounded program space incl. re-finalize programs; real reader on every image",
+         "For 14 hand-listed shapes and all programs of depth <=2/3 (plus a second finalize after metadata changes / added sections) every crash image is built and offered to the real reader: an accepted image must stem from inside a finalize, equal a completed file in its listing, and answer every read op (forwards and backwards) with Err or the completed result; writers dropped without finalize at every API position must leave a rejected device.",
+         "in-order writes, prefix-torn writes (as the statement assumes)",
+         "DESIGN.md §5 C15"),
+ "C16": ("fault_enumeration",
+         "exhaustive single-fault injection at every device-operation index and deviation-bounded exhaustive chunking schedules, writer and reader side",
+         "Writer programs (14 shapes + depth <=2/3) and reader programs on 4 files: one run per device operation index with exactly that read/write/seek/flush failing - the call in progress must return Err, finalize Ok implies the fault-free bytes; all schedules with <=1/2 short transfers (1 byte, half, len-1) of device and blob-source transfers plus 3 uniform schedules must give identical bytes and results.",
+         "one fault per run; short transfers never return 0 bytes",
+         "DESIGN.md §5 C16"),
+ "C17": ("model_checking",
+         "bounded-exhaustive read histories (depth 3/4) on intact and damaged files, one-shot device fault at every device operation followed by every operation, and fixpoint BFS over the reader's page-cache states",
+         "Every history over the read alphabet on 6 file variants, every (warm-up, faulted op, fault position, following op) combination with full and half-sized device reads, and a BFS that evaluates every operation in every reachable page-cache state (fixpoint reached); oracle: memoised result on a freshly opened reader.",
+         "alphabet of ~20 ops per file; one fault per history",
+         "DESIGN.md §5 C17"),
  "C14": ("model_checking",
          "deviation-bounded exhaustive DFS (<=2 quick / <=3 thorough deviations) over attribute groups, types, value orders and limit overrides on the real writer/reader",
          "48 attribute-group subsets x 4 sequence kinds, with every combination of at most 2 (3) deviations over coordinate/index/colour/intensity types, value sets, limit overrides and all 6 orders of three distinct values per attribute; stored bounds compared numerically with an independent fold, limits with the declared type range or the override.",
